@@ -149,7 +149,7 @@ CLAIMED["C06"] = dict(
          "(b) every assignment of <=3 (thorough 4) arguments of 10 type/widening kinds to {own register, register of any other argument (all permutation cycles), two foreign "
          "registers, a stack slot} for 6 conventions: emit_prolog + emit_args_assignment are interpreted by the msim node simulator and every destination must hold its argument.",
     note="Cases where compilers disagree or the ABI is silent (mmx/mask arguments, f80 on Microsoft targets, ...) are counted as undecided; x86-32/AArch64 shuffles are simulated, "
-         "not executed; known findings: integer widening to a wider destination type is not applied on AArch64, after swaps, and for stack destinations.",
+         "not executed; known findings: integer widening to a wider destination type is not applied on AArch64 and for stack destinations.",
     technique="exhaustive enumeration of signatures x conventions and of argument assignments (full product within bounds) with reference ABI classifiers, a real compiler and a machine-state simulator as oracles",
     design_ref="3/C06", engine="harness/c06_abi.cpp")
 
@@ -188,8 +188,8 @@ CLAIMED["C20"] = dict(
 
 CLAIMED["C05"] = dict(
     level="model_checking",
-    text="Enumerated Compiler programs: shape (straight line, diamonds, loops incl. values live only around the back edge, jump tables, calls with 0..N arguments, "
-         "invoke inside loops) x shrunk register file K x pressure n x argument mode x value mode x every entry of a 120-op alphabet in the slot (fixed/implicit registers, "
+    text="Enumerated Compiler programs: shape (straight line, diamonds, loops incl. values live only around the back edge and swaps at the back edge, jump tables, calls with 0..N arguments, "
+         "invoke inside loops, call-site marshalling of every narrower virtual register type into wider parameters, 16-argument functions with an aligned stack variable and a call) x shrunk register file K x pressure n x argument mode x value mode (gp64, gp32, mixed 64/32, xmm, ymm, zmm, k) x every entry of a 120-op alphabet in the slot (fixed/implicit registers, "
          "RW/W zero-extending ops, 8-bit and high-byte ops, spill-prone memory forms, vector and mask groups, cmpxchg/mul/div/shift-by-CL); each program is interpreted by a "
          "reference interpreter over named values and compared with the register-allocated code - executed natively (x86-64, fixed input set: return value, memory buffer, "
          "external-call log) or interpreted by the msim machine simulator (x86-32, AArch64). Lists leg (harness/c05_lists.cpp): 37 register-list forms (AArch64 ld1-ld4/st1-st4/ldNr/lane forms, "
